@@ -75,7 +75,7 @@ def kv (ws : List String) (k : String) : Option String :=
     | _ => none
 
 def reset (hdr : List String) : G :=
-  { unique := (kv hdr "unique").getD "1" == "1", maxRetry := ((kv hdr "maxretry").bind String.toNat?).getD 30 }
+  { unique := (kv hdr "unique").getD "1" == "1", keepTracker := (kv hdr "keeptracker").getD "0" == "1", maxRetry := ((kv hdr "maxretry").bind String.toNat?).getD 30 }
 
 def step (g : G) (ws : List String) : G × String :=
   match ws with
